@@ -105,6 +105,11 @@ struct CaseOut {
     sample: String,
 }
 
+pub fn replay_case(h: &History, k: u64, mode: FaultMode) -> Result<String, String> {
+    let (base, _) = count_calls(h)?;
+    run_case(h, base, k, mode).map(|o| o.sample)
+}
+
 fn run_case(h: &History, base_calls: u64, k: u64, mode: FaultMode) -> Result<CaseOut, String> {
     let backend = MemBackend::new().recording();
     let mut it = Interp::attach(h.cfg, backend, DbModel::default())?;
